@@ -26,6 +26,11 @@ pub fn generate(r: &mut Rng, tier: &str, emit: &mut dyn FnMut(String)) {
         };
         emit(crate::c07::gen_history(r, &k).replacen("sim C12", "sim2 C12", 1));
     }
+    // an auto-addressed service and a changing OS interface table: the interface check is the
+    // LAST step of a loop iteration, the probes it starts on a new address must be woken for
+    for _ in 0..n / 10 {
+        emit(crate::c18::gen_auto_follow(r, "sim2 C12"));
+    }
     for i in 0..n {
         if i % 5 == 3 {
             // hostname searches without any browse: the refresh marks of address records are
